@@ -14,4 +14,4 @@ git apply $patch || { echo "PATCH DOES NOT APPLY"; exit 3; }
 echo "== demo WITH change"; (eval "$demo") > /tmp/seedv_$id.with.log 2>&1; echo "exit=$?"
 echo "== pinned suite WITH change"; /venv/bin/python -m pytest -q -p no:cacheprovider --timeout=900 --continue-on-collection-errors 2>&1 | tail -1
 echo "== our check ($tier) WITH change"
-cd /verif && VERIF_REPO=$d timeout 1800 ./check $id --tier $tier 2>&1 | grep -E "VIOLATION|KNOWN|tier=|HARNESS" | cut -c1-300 | head -8
+cd /verif && VERIF_REPO=$d timeout 1800 ./check $id --tier $tier 2>&1 | grep -E "^VIOLATION|tier=|HARNESS" | cut -c1-300 | head -8
